@@ -47,7 +47,11 @@ F_relock == { Cfg(<< Rtl \o Rtl, W2 >>, 1, 0, 0), Cfg(<< Racc(1) \o Racc(1), W2 
 \* accessor released while locked; the id recycled by another thread that enters its own region
 Rdrop(h) == << O("create", h), O("lock", h), O("read", 0), O("deref", 0), O("release", h) >>
 F_relw == { Cfg(<< Rdrop(1), W1 >>, 1, 1, 0), Cfg(<< << O("create", 1), O("lock", 1), O("release", 1) >>, Rcr(2), W1 >>, 2, 2, 0) }
-Cfg_relw_q == F_relw
+\* quick: the dropped accessor alone, and its id recycled by a thread that enters a region (accessor 1 exists already)
+F_relw_s == { Cfg(<< Rdrop(1), W1 >>, 1, 1, 0),
+              Cfg(<< << O("lock", 1), O("release", 1) >>, << O("create", 2), O("lock", 2), O("read", 0), O("deref", 0), O("unlock", 2) >>, W1 >>, 2, 2, 1) }
+Cfg_relw_q == F_relw_s
+Cfg_relw == F_relw
 
 \* --- weak-memory families (Stale = TRUE)
 Cfg_wm_q == F_tl1w2 \cup F_acc1w2 \cup F_nest \cup F_move \cup F_cr1
